@@ -124,6 +124,9 @@ struct Inner {
     violations: Vec<Violation>,
     known: BTreeMap<String, (Finding, usize, Option<Violation>)>,
     counters: BTreeMap<String, u64>,
+    /// unlisted violations seen per (kind, site) group — private to the report: a check's own
+    /// counters (`count`, `merge_counts`) can never collide with it and silence a group
+    group_seen: BTreeMap<(String, String), u64>,
     samples: Vec<Value>,
     notes: BTreeMap<String, Value>,
     machinery_errors: Vec<String>,
@@ -224,9 +227,8 @@ impl Report {
             }
             None => {
                 // keep at most 25 recorded cases per (kind, site) group, count the rest
-                let gkey = format!("violations[{}|{}]", v.kind, v.site);
                 let n = {
-                    let e = i.counters.entry(gkey).or_insert(0);
+                    let e = i.group_seen.entry((v.kind.clone(), v.site.clone())).or_insert(0);
                     *e += 1;
                     *e
                 };
@@ -286,8 +288,8 @@ impl Report {
                 path.display(),
                 kind,
                 site,
-                i.counters
-                    .get(&format!("violations[{}|{}]", kind, site))
+                i.group_seen
+                    .get(&(kind.clone(), site.clone()))
                     .copied()
                     .unwrap_or(vs.len() as u64),
                 v.what
@@ -332,6 +334,9 @@ impl Report {
         );
         for (k, v) in &i.counters {
             coverage.insert(k.clone(), json!(v));
+        }
+        for ((kind, site), n) in &i.group_seen {
+            coverage.insert(format!("unlisted_violations[{}|{}]", kind, site), json!(n));
         }
         for (k, v) in &i.notes {
             coverage.insert(k.clone(), v.clone());
